@@ -29,6 +29,30 @@ def main():
     tests = glob.glob(os.path.join(seed, "*_test.go"))
     files = re.findall(r"^\+\+\+ b/(\S+)", open(patch).read(), re.M)
     pkgdir = os.path.dirname(files[0])
+    # the demonstration may live in another package than the patched file: locate it by its package clause
+    if tests:
+        pkgname = re.search(r"^package (\w+)", open(tests[0]).read(), re.M).group(1)
+        cands = [os.path.dirname(f) for f in files]
+        try:
+            meta = json.load(open(os.path.join(seed, "meta.json")))
+            for f in meta.get("files", []) + meta.get("test_files", []):
+                if isinstance(f, str):
+                    cands.append(os.path.dirname(f) if f.endswith(".go") else f)
+            if isinstance(meta.get("test_dir"), str):
+                cands.insert(0, meta["test_dir"])
+        except Exception:
+            pass
+        rc, o = sh(f"grep -rl --include=*.go '^package {pkgname}$' pkg apis cmd 2>/dev/null | xargs -n1 dirname | sort -u", cwd="/repo")
+        alldirs = o.split()
+        def declares(d):
+            return d in alldirs
+        chosen = [d for d in cands if declares(d)]
+        if chosen:
+            pkgdir = chosen[0]
+        else:
+            near = [d for d in alldirs if os.path.basename(d) == pkgname]
+            if len(near) == 1:
+                pkgdir = near[0]
     wt = tempfile.mkdtemp(prefix="verif-seedrun.", dir="/var/tmp")
     os.rmdir(wt)
     out = tempfile.mkdtemp(prefix="verif-seedout.", dir="/var/tmp")
